@@ -109,8 +109,9 @@ import HexVerif.X.Sem
     Of the repository's tests/x programs, bubblesort, echo_char, exit, fib, hello_prints, hello_putval,
     printhex and printn are in the class V3 with a passing check; the others are outside because of
     constructs whose value X leaves undefined (two impure actuals, an impure call next to a variable).
-  Open: local `val`s and local arrays, `and` / `or` over an impure call, `a[i] := f(x)` with an impure
-  call;
+    CALLS IN `a[i] := e` (`execS_assignSubG`): subscript and value with calls of pure functions (V3);
+    or one of them with calls of any callee and the other a constant (V2 and V3).
+  Open: local `val`s and local arrays, `and` / `or` over an impure call;
   replacing the reflective checks by a proof that they always succeed.
 -/
 namespace Hex.C01
@@ -603,6 +604,45 @@ example : ∃ img, Xcmp.compile demoNest = .ok img := by
   | ok img => exact ⟨img, rfl⟩
   | error e =>
     have : (match Xcmp.compile demoNest with | .ok _ => true | .error _ => false) = true := by decide +kernel
+    rw [h] at this
+    simp at this
+
+/-- `var n; array a[8];
+     func next(val d) is { n := n + d; return n }
+     func sq(val x) is var r; var k; { r := 0; k := 0; while k < x do { r := r + x; k := k + 1 }; return r }
+     proc main() is var i;
+     { n := 0; i := 3; a[i] := sq(i); a[next(1)] := 5; a[2] := next(3) + 1; a[sq(2)] := a[i] - sq(1);
+       0((a[1] + a[2]) + (a[3] + a[4])) }` -/
+def demoAs : X.Program :=
+  { globals := [.var "n", .array "a" (.num 8)],
+    procs := [
+      { isFunc := true, name := "next", formals := [.val "d"], locals := [],
+        body := .seq [.assign "n" (.bin .plus (.name "n") (.name "d")), .ret (.name "n")] },
+      { isFunc := true, name := "sq", formals := [.val "x"], locals := [.var "r", .var "k"],
+        body := .seq [.assign "r" (.num 0), .assign "k" (.num 0),
+                      .while (.bin .ls (.name "k") (.name "x"))
+                        (.seq [.assign "r" (.bin .plus (.name "r") (.name "x")), .assign "k" (.bin .plus (.name "k") (.num 1))]),
+                      .ret (.name "r")] },
+      { isFunc := false, name := "main", formals := [], locals := [.var "i"],
+        body := .seq [.assign "n" (.num 0), .assign "i" (.num 3),
+                      .assignSub "a" (.name "i") (.call "sq" [.name "i"]),
+                      .assignSub "a" (.call "next" [.num 1]) (.num 5),
+                      .assignSub "a" (.num 2) (.bin .plus (.call "next" [.num 3]) (.num 1)),
+                      .assignSub "a" (.call "sq" [.num 2]) (.bin .minus (.sub "a" (.name "i")) (.call "sq" [.num 1])),
+                      .syscall 0 [.bin .plus (.bin .plus (.sub "a" (.num 1)) (.sub "a" (.num 2)))
+                                             (.bin .plus (.sub "a" (.num 3)) (.sub "a" (.num 4)))]] }] }
+
+/-! Non-vacuity for calls in `a[i] := e`: `demoAs` (a pure call as the value and as the subscript,
+    next to variables; a call with effects as the subscript next to a constant value, and as the
+    value next to a constant subscript) is in the class V3, has a defined behaviour (exit value 27)
+    and compiles. -/
+example : C01s.v3Ok demoAs = true := by decide +kernel
+example : behaviourIs (X.run demoAs ⟨[], fun _ => []⟩ 5000) 27 0 = true := by decide +kernel
+example : ∃ img, Xcmp.compile demoAs = .ok img := by
+  cases h : Xcmp.compile demoAs with
+  | ok img => exact ⟨img, rfl⟩
+  | error e =>
+    have : (match Xcmp.compile demoAs with | .ok _ => true | .error _ => false) = true := by decide +kernel
     rw [h] at this
     simp at this
 
